@@ -148,7 +148,7 @@ func checkC17(c *km.Ctx) {
 	r.Assume = []string{"http.Redirect emits the target it is given (after path cleaning)", "go/types + go/ssa model the source faithfully"}
 
 	r.Rule("R-C17-1", "every redirect target is an on-origin constant, has an on-origin constant prefix, is destination-filter output (directly or through a filter-only field), or is a tabled by-design off-origin redirect", 18)
-	r.Rule("R-C17-2", "the destination filter returns the client's value only when it starts with '/', not with '//', has no backslash in its path part and no control character; otherwise the constant profile path", 1)
+	r.Rule("R-C17-2", "the destination filter returns the client's value only when it starts with '/', not with '//', has no backslash before the first '?' (the part net/http.Redirect path-cleans) and no control character; otherwise the constant profile path", 1)
 	r.Rule("R-C17-3", "every store into pendingAuth2Request.loginDestination is destination-filter output", 1)
 
 	filter := c.MustFunc("R-C17-2", "cmd/keymasterd", "getLoginDestination")
@@ -238,7 +238,7 @@ func checkC17(c *km.Ctx) {
 			return isC && cs == p && isInbound(cl.Common().Args[0])
 		}}
 	}
-	noBackslash := km.Prim{Name: "no backslash in the path part", Direct: func(f km.Fact) bool {
+	noBackslash := km.Prim{Name: "no backslash before the query", Direct: func(f km.Fact) bool {
 		cl, ok := f.X.(*ssa.Call)
 		if f.Op != token.ILLEGAL || f.Pol || !ok {
 			return false
@@ -294,7 +294,7 @@ func checkC17(c *km.Ctx) {
 		}
 		// and every non-constant origin of the result is the inbound value
 		originsOK := phiOriginsAre(v, isInbound)
-		r.Add("R-C17-2", km.FuncName(filter), "client value returned", posOf(c, rc.Ret), "HasPrefix(x,\"/\") ∧ ¬HasPrefix(x,\"//\") ∧ no backslash in the path part ∧ no control character", sprintf("missing=%v origins-ok=%v", missing, originsOK), len(missing) == 0 && originsOK)
+		r.Add("R-C17-2", km.FuncName(filter), "client value returned", posOf(c, rc.Ret), "HasPrefix(x,\"/\") ∧ ¬HasPrefix(x,\"//\") ∧ no backslash before the first '?' ∧ no control character", sprintf("missing=%v origins-ok=%v", missing, originsOK), len(missing) == 0 && originsOK)
 	}
 	if nRet == 0 {
 		r.AnchorLost("R-C17-2", "returns of getLoginDestination")
@@ -381,14 +381,18 @@ func isInboundPathPart(v ssa.Value, isInbound func(ssa.Value) bool, depth int) b
 		if !isInboundPathPart(x.X, isInbound, depth+1) {
 			return false
 		}
-		// high bound: index of the first ? or #
-		if cl, ok := km.Unwrap(x.High).(*ssa.Call); ok && km.CalleeFull(cl.Common()) == "strings.IndexAny" {
-			cs, isC := km.ConstString(cl.Common().Args[1])
-			return isC && strings.Contains(cs, "?")
-		}
-		if cl, ok := km.Unwrap(x.High).(*ssa.Call); ok && km.CalleeFull(cl.Common()) == "strings.Index" {
-			cs, isC := km.ConstString(cl.Common().Args[1])
-			return isC && cs == "?"
+		// high bound: index of the first '?' and nothing else. net/http.Redirect splits its target at the first
+		// '?' only and path.Clean()s everything before it - a fragment included - so a scan that stops at '#'
+		// leaves "/a#/../\\host" (cleaned to "/\\host") unexamined.
+		if cl, ok := km.Unwrap(x.High).(*ssa.Call); ok {
+			switch km.CalleeFull(cl.Common()) {
+			case "strings.IndexAny", "strings.Index":
+				cs, isC := km.ConstString(cl.Common().Args[1])
+				return isC && cs == "?"
+			case "strings.IndexByte", "strings.IndexRune":
+				i, isI := km.ConstInt(cl.Common().Args[1])
+				return isI && i == '?'
+			}
 		}
 	}
 	return false
